@@ -6,7 +6,7 @@ THREADS = ["myth_create_ex_body/create_contract", "myth_join_body/join_contract"
 FP = ["myth_create_join_various_ex_aux.function_pointer_call.1/F_watch,F_other"]
 JOBS = [
   Job("c17.aux", TU, "h_aux", rec=["myth_create_join_various_ex_aux/aux_contract"], replace=THREADS, rewrites=HOOK,
-      restrict_fp=FP, cbmc=["--sat-solver", "cadical"], fuc=["myth_create_join_various_ex_aux"], timeout=200),
+      restrict_fp=FP, fuc=["myth_create_join_various_ex_aux"], timeout=200),
   Job("c17.various", TU, "h_various", enforce=["myth_create_join_various_ex_body/various_contract"],
       replace=["myth_create_join_various_ex_aux/aux_contract"], rewrites=HOOK,
       fuc=["myth_create_join_various_ex_body"], timeout=200),
